@@ -814,6 +814,9 @@ func C04Child(storeName string, store Store, extra func(rec *C04Recorder, r Read
 		}
 		fmt.Fprintf(progress, "E %d\n", i)
 	}
+	if to-from == 1 {
+		time.Sleep(150 * time.Millisecond) // a probe of one case: give a goroutine that is about to panic the time to
+	}
 	return nil
 }
 
@@ -838,6 +841,11 @@ func c04TopFunc(dump string) string {
 }
 
 func c04RunSlice(childTest string, w, from, to int, ids []int, outPath string, deadline time.Duration, maxCrash int) (extra []c04Rec, skipped int) {
+	return c04RunSliceOpt(childTest, w, from, to, ids, outPath, deadline, maxCrash, false)
+}
+
+func c04RunSliceOpt(childTest string, w, from, to int, ids []int, outPath string, deadline time.Duration, maxCrash int, single bool) (extra []c04Rec, skipped int) {
+	from0 := from
 	progPath := fmt.Sprintf("%s.progress%d", outPath, w)
 	partPath := fmt.Sprintf("%s.part%d", outPath, w)
 	crashes := 0
@@ -864,7 +872,8 @@ func c04RunSlice(childTest string, w, from, to int, ids []int, outPath string, d
 			case <-time.After(200 * time.Millisecond):
 				if st, err := os.Stat(progPath); err == nil && st.Size() != lastSize {
 					lastSize, lastChange = st.Size(), time.Now()
-				} else if time.Since(lastChange) > deadline {
+				} else if time.Since(lastChange) > deadline && (lastSize >= 0 || time.Since(lastChange) > deadline+3*time.Minute) {
+					// (a child that has not announced anything yet is still loading the cases: not a verdict about a case)
 					hung = true
 					cmd.Process.Kill()
 					werr = <-done
@@ -906,7 +915,22 @@ func c04RunSlice(childTest string, w, from, to int, ids []int, outPath string, d
 		if hung {
 			outc = "timeout"
 		}
-		extra = append(extra, c04Rec{Case: ids[idx], Ep: ep, Out: outc, Msg: "in " + top + ": " + msg})
+		// A panicking goroutine takes a moment to bring the process down while the others keep running, so the case
+		// in flight may be one behind the culprit: run the in-flight case and its predecessor alone and blame the one
+		// that reproduces (the in-flight one if neither does).
+		blame := idx
+		if !single && !hung {
+			for _, cand := range []int{idx, idx - 1} {
+				if cand < 0 || cand < from0 {
+					continue
+				}
+				if ex, _ := c04RunSliceOpt(childTest, 1000+w, cand, cand+1, ids, outPath+".probe", deadline, 1, true); len(ex) > 0 {
+					blame, ep = cand, ex[0].Ep
+					break
+				}
+			}
+		}
+		extra = append(extra, c04Rec{Case: ids[blame], Ep: ep, Out: outc, Msg: "in " + top + ": " + msg})
 		from = idx + 1
 		crashes++
 		if crashes >= maxCrash {
